@@ -33,7 +33,6 @@ import (
 	"nvharness/lib/corr"
 	"nvharness/lib/go2lean"
 	"nvharness/lib/gofacts"
-	_ "nvharness/lib/quiet"
 	"nvharness/lib/rng"
 	"nvharness/lib/sched"
 )
@@ -50,6 +49,8 @@ func main() {
 		corr.Main(spec(), os.Args[2:])
 	case "runscript":
 		runScriptChild()
+	case "stocklog":
+		stockChild(os.Args[2], os.Args[3])
 	case "shapes":
 		printShapes(os.Args[2])
 	default:
@@ -662,6 +663,25 @@ func (e *exec) checkRouting(c *call) {
 	case c.ret == "full":
 		if e.capQ == 0 && e.kind != "pchan" {
 			e.hit(k, fmt.Sprintf("caller of call %d received full from an unbounded queue", c.id))
+		} else if e.kind != "pchan" {
+			// a bounded queue turns a call away only when it HOLDS capacity-many calls; the call being executed has left it
+			lane := 0
+			if e.kind == "mline" {
+				lane = safeSlot(c.hash, e.lanes)
+			}
+			queued := 0
+			for _, o := range e.calls {
+				ol := 0
+				if e.kind == "mline" {
+					ol = safeSlot(o.hash, e.lanes)
+				}
+				if o != c && o.task != nil && ol == lane && o.starts == 0 && o.ret != "closed" && o.ret != "full" && o.ret != "panic" {
+					queued++
+				}
+			}
+			if queued < e.capQ {
+				e.hit("C14:"+kindName(e.kind)+":full-below-capacity", fmt.Sprintf("caller of call %d received full although its lane's queue (capacity %d) holds only %d call(s) that have not started", c.id, e.capQ, queued))
+			}
 		}
 	case c.ret == "panic":
 	default:
@@ -1001,7 +1021,158 @@ func hammer(kind string, seed, n int) map[string]string {
 			break
 		}
 	}
+	// ---- C: Stop racing with callers that are submitting: whatever a caller was told, it is told — a call is either
+	// turned away or runs once and its caller gets the result; after Stop and quiescence no caller is left waiting
+	for round := 0; round < 60*n; round++ {
+		h := newHx(kind, 2)
+		h.run()
+		const G = 8
+		var left, accepted, rejected int32 = G, 0, 0
+		start := make(chan struct{})
+		for g := 0; g < G; g++ {
+			g := g
+			go func() {
+				defer atomic.AddInt32(&left, -1)
+				<-start
+				for j := 0; ; j++ {
+					id := g*1000000 + j
+					var ran int32
+					r, err := h.call(context.WithValue(context.Background(), ctxKey{}, id), id, g, func(context.Context, interface{}, bool) (interface{}, error) {
+						atomic.AddInt32(&ran, 1)
+						return id, nil
+					})
+					got := canon(r, err)
+					switch {
+					case got == "ok"+strconv.Itoa(id):
+						atomic.AddInt32(&accepted, 1)
+					case got == "closed":
+						atomic.AddInt32(&rejected, 1)
+						if kind != "pchan" && atomic.LoadInt32(&ran) > 0 {
+							hit("C14:"+name+":accepted-call-answered-as-rejected", fmt.Sprintf("Stop racing with %d callers (round %d): call %d was executed although its caller was sent away with closed", G, round, id))
+						}
+						return
+					default:
+						hit("C14:"+name+":misrouted-result", fmt.Sprintf("Stop racing with %d callers (round %d): caller of call %d received %s", G, round, id, got))
+						return
+					}
+				}
+			}()
+		}
+		close(start)
+		for i := 0; i < round%7; i++ {
+			runtime.Gosched()
+		}
+		h.stop()
+		ok := waitExit(h, fmt.Sprintf("Stop racing with %d callers (round %d): the lane goroutines never terminated", G, round))
+		if l := atomic.LoadInt32(&left); l > 0 {
+			hit("C14:"+name+":accepted-call-dropped", fmt.Sprintf("Stop racing with %d callers (round %d): everything is parked, the lanes have %s, and %d caller(s) still wait for a result: their calls were accepted around Stop and are neither executed nor answered", G, round, map[bool]string{true: "exited", false: "not exited"}[ok], l))
+			break
+		}
+		if !ok {
+			break
+		}
+	}
 	return hits
+}
+
+// stocklog: the executors in a process that uses the library as shipped — the default logger installed by ulog's own
+// init(), SetDefaultLogger never called — with enough of them (n lanes of one MultiLine; n lines / runners / proc chans)
+// that whatever the lane goroutines do on their way out (they log) happens hundreds of times in one process. The harness
+// processes replace the logger, so this runs in a process of its own with stdout on /dev/null; it reports on stderr.
+func stocklog(kind string, n int) map[string]string {
+	hits := map[string]string{}
+	null, err := os.OpenFile(os.DevNull, os.O_WRONLY, 0)
+	if err != nil {
+		harnessFail(err)
+	}
+	defer null.Close()
+	cmd := osexec.Command(os.Args[0], "stocklog", kind, strconv.Itoa(n))
+	cmd.Env = append(os.Environ(), "C14_STOCK_LOGGER=1")
+	cmd.Stdout = null
+	errb := &bytes.Buffer{}
+	cmd.Stderr = errb
+	if err := cmd.Start(); err != nil {
+		harnessFail(err)
+	}
+	done := make(chan error, 1)
+	go func() { done <- cmd.Wait() }()
+	name := kindName(strings.Split(kind, "-")[0])
+	if strings.HasPrefix(kind, "runner") {
+		name = "RunnerQ"
+	}
+	select {
+	case err = <-done:
+	case <-time.After(30 * time.Second):
+		_ = cmd.Process.Kill()
+		<-done
+		hits["C14:"+name+":operation-never-completes"] = fmt.Sprintf("stock logger, %d executors/lanes: the process did not finish within 30 s", n)
+		return hits
+	}
+	msg := errb.String()
+	for _, l := range strings.Split(msg, "\n") {
+		if f := strings.SplitN(l, "\t", 3); len(f) == 3 && f[0] == "HIT" {
+			if _, ok := hits[f[1]]; !ok {
+				hits[f[1]] = f[2]
+			}
+		}
+	}
+	if err != nil && len(hits) == 0 {
+		i := strings.Index(msg, "panic:")
+		if j := strings.Index(msg, "fatal error:"); i < 0 || (j >= 0 && j < i) {
+			i = j
+		}
+		if i < 0 || strings.Contains(msg, "harness error") {
+			fmt.Fprintln(os.Stderr, msg)
+			harnessFail(fmt.Errorf("stocklog child failed: %v", err))
+		}
+		first := strings.SplitN(msg[i:], "\n", 2)[0]
+		hits["C14:"+name+":lane-goroutine-panic"] = "stock logger: the process died: " + first
+	}
+	return hits
+}
+
+// stockChild: `c14 stocklog <kind> <n>`, started with C14_STOCK_LOGGER=1 (see quietlog.go)
+func stockChild(kind, ns string) {
+	n, _ := strconv.Atoi(ns)
+	name := kindName(strings.Split(kind, "-")[0])
+	if strings.HasPrefix(kind, "runner") {
+		name = "RunnerQ"
+	}
+	settle := func() {
+		if err := c14q.Quiesce(10 * time.Second); err != nil {
+			fmt.Fprintln(os.Stderr, "harness error:", err)
+			os.Exit(2)
+		}
+	}
+	var hs []*hx
+	if kind == "mline" {
+		hs = []*hx{newHxCap(kind, n, 4)}
+	} else {
+		for i := 0; i < n; i++ {
+			hs = append(hs, newHxCap(kind, 1, 4))
+		}
+	}
+	for i, h := range hs {
+		h.run()
+		id := i
+		r, err := h.call(context.WithValue(context.Background(), ctxKey{}, id), id, id, func(context.Context, interface{}, bool) (interface{}, error) { return id, nil })
+		if got := canon(r, err); got != "ok"+strconv.Itoa(id) {
+			fmt.Fprintf(os.Stderr, "HIT\tC14:%s:misrouted-result\tstock logger: caller of call %d received %s\n", name, id, got)
+		}
+	}
+	for _, h := range hs {
+		h.stop()
+	}
+	left := int32(len(hs))
+	for _, h := range hs {
+		h := h
+		go func() { h.wait(); atomic.AddInt32(&left, -1) }()
+	}
+	settle()
+	if l := atomic.LoadInt32(&left); l > 0 {
+		fmt.Fprintf(os.Stderr, "HIT\tC14:%s:lane-not-terminated\tprocess with the library's built-in default logger (SetDefaultLogger never called): after Stop of %d executor(s) with %d lane(s) in all, %d never finished stopping although every goroutine is parked; %d goroutine(s) are parked inside ulog, %d inside a lane loop\n",
+			name, len(hs), n, l, c14q.CountIn("neptune/ulog."), c14q.CountIn("popLoop"))
+	}
 }
 
 // backlog: one callee is held, n further calls are accepted behind it (line / multi-line: from one goroutine, in a known
@@ -1289,6 +1460,20 @@ func runScript(lines []string) ([]string, map[string]string) {
 				}
 				out = "done"
 			}
+		case len(w) == 3 && w[0] == "stocklog":
+			_, okk := runnerVariants[w[1]]
+			n, ok1 := parseNat(w[2])
+			if (okk || w[1] == "line" || w[1] == "mline" || w[1] == "pchan") && ok1 && n >= 1 && n <= 2000 {
+				for k, v := range stocklog(w[1], n) {
+					if _, ok := hits[k]; !ok {
+						hits[k] = v
+						if hitSink != nil {
+							hitSink(k, v)
+						}
+					}
+				}
+				out = "done"
+			}
 		case len(w) == 3 && w[0] == "backlog":
 			_, okk := runnerVariants[w[1]]
 			n, ok1 := parseNat(w[2])
@@ -1351,7 +1536,7 @@ func amplify(tag string, lines []string) (n int, oneP bool) {
 			if runs++; runs > 1 {
 				n, oneP = 2, true // a second consumer would make Stop crash inside the library: child process
 			}
-		case strings.HasPrefix(l, "hammer "), strings.HasPrefix(l, "backlog "):
+		case strings.HasPrefix(l, "hammer "), strings.HasPrefix(l, "backlog "), strings.HasPrefix(l, "stocklog "):
 			return 1, false
 		case strings.HasPrefix(l, "new "):
 			pchan, stopped, cancelled, runs = strings.HasPrefix(l, "new pchan "), false, false, 0
@@ -1458,7 +1643,7 @@ func runScriptChild() {
 func scriptKind(lines []string) string {
 	k := "Line"
 	for _, l := range lines {
-		if f := strings.Fields(l); len(f) >= 2 && (f[0] == "new" || f[0] == "hammer" || f[0] == "backlog") {
+		if f := strings.Fields(l); len(f) >= 2 && (f[0] == "new" || f[0] == "hammer" || f[0] == "backlog" || f[0] == "stocklog") {
 			name := f[1]
 			if strings.HasPrefix(name, "runner") {
 				name = "runner"
@@ -1921,7 +2106,7 @@ func genKernel(r *rng.R) []string {
 }
 
 func genGarbage(r *rng.R) []string {
-	toks := []string{"backlog", "new", "call", "recall", "fin", "cancel", "stop", "run", "boom", "hammer", "slot", "line", "mline", "pchan", "runner", "runner-call", "runner-x", "ok", "err", "0", "1", "-1", "x",
+	toks := []string{"backlog", "stocklog", "new", "call", "recall", "fin", "cancel", "stop", "run", "boom", "hammer", "slot", "line", "mline", "pchan", "runner", "runner-call", "runner-x", "ok", "err", "0", "1", "-1", "x",
 		"99999999999999999999", "1e3", "+1", "", "  ", "0x10", "-9223372036854775809"}
 	lines := []string{r.Pick("new line 1 1", "new mline 2 0", "new bogus 1 1", "new line 2 0", "new pchan 1 1", "new runner 0 0")}
 	for i := 0; i < 8; i++ {
@@ -1981,7 +2166,9 @@ func fixedCases() []corr.Case {
 		raw("witness-boom", "new "+k+" 1 4", "run", "call 0 1", "fin 0 ok 1", "call 1 1", "boom 1")
 		raw("hammer", "new line 1 0", "hammer "+k+" 1 4")
 		raw("backlog", "new line 1 0", "backlog "+k+" 70", "backlog "+k+" 300")
+		raw("stocklog", "stocklog "+k+" 300")
 	}
+	raw("stocklog", "stocklog mline 509") // the default slot count
 	return cs
 }
 
@@ -2024,6 +2211,9 @@ func spec() corr.Spec {
 			case i%307 == 83 || (tier != "quick" && i%101 == 83): // prime moduli: the heavy classes spread over all shards
 				k := giveupKinds[(i/101)%len(giveupKinds)]
 				return corr.Case{Tag: "backlog", Lines: []string{"new line 1 0", fmt.Sprintf("backlog %s %d", k, r.PickInt(65, 130, 300, 1000, 3000))}}
+			case i%409 == 201 || (tier != "quick" && i%211 == 201):
+				k := giveupKinds[(i/211)%len(giveupKinds)]
+				return corr.Case{Tag: "stocklog", Lines: []string{fmt.Sprintf("stocklog %s %d", r.Pick(k, "mline"), r.PickInt(300, 509, 700))}}
 			case i%401 == 63 || (tier != "quick" && i%103 == 63):
 				k := giveupKinds[(i/103)%len(giveupKinds)]
 				return corr.Case{Tag: "hammer", Lines: []string{"new line 1 0", fmt.Sprintf("hammer %s %d %d", k, r.Range(0, 1<<20), r.Range(2, 6))}}
